@@ -172,6 +172,7 @@ func (r *c11) Exec(op []string) string {
 		} else {
 			k := atoi(op[1])
 			res = slice.LCSFunc(lhs, rhs, func(a, b int) bool { return a%k == b%k })
+			r.st.Note("lcsfunc-mod-" + op[1])
 		}
 		switch {
 		case len(lhs) == 0 || len(rhs) == 0:
@@ -192,6 +193,9 @@ func (r *c11) Exec(op []string) string {
 	case "lis", "lnds":
 		vs := slices.Clone(r.lhs)
 		mode := op[1]
+		if mode == "revhalf" {
+			r.st.Note(op[0] + "-revhalf")
+		}
 		var res []int
 		switch {
 		case op[0] == "lis" && mode == "nat":
@@ -323,7 +327,8 @@ func genC11Pairs(calls ...string) func(g *G) {
 	return func(g *G) {
 		// corner cases by hand: empty inputs, equal inputs, one element
 		for _, p := range [][2]string{{"-", "-"}, {"1", "-"}, {"-", "1"}, {"1", "1"}, {"1", "2"}, {"1,2,3", "1,2,3"},
-			{"1,2,3", "3,2,1"}, {"0,0,0,0", "0,0"}, {"0,0", "0,0,0,0"}, {"0,1,0,1,0", "1,0,1,0,1"}} {
+			{"1,2,3", "3,2,1"}, {"0,0,0,0", "0,0"}, {"0,0", "0,0,0,0"}, {"0,1,0,1,0", "1,0,1,0,1"},
+			{"0,1,2,3,4,5", "3,4,5,0,1,2"}, {"3,1,5", "0,4,2,6"}, {"7,7,7", "1,4"}} {
 			g.Case(append([]string{"reset " + p[0] + " " + p[1]}, calls...))
 		}
 		// exhaustive: every pair over 3 symbols, lengths ≤ 5 (6 thorough: 1.19 M pairs),
@@ -332,10 +337,13 @@ func genC11Pairs(calls ...string) func(g *G) {
 		ws := c11words(3, maxLen, false)
 		me, k := c11shard(g)
 		idx := 0
+		// (equality modulo 3 is plain equality on the three symbols of the exhaustive part: `lcsf 3` is left to
+		// the hand-made and random cases, whose alphabets are larger)
+		exCalls := slices.DeleteFunc(slices.Clone(calls), func(c string) bool { return c == "lcsf 3" })
 		for _, l := range ws {
 			for _, r := range ws {
 				if idx%k == me {
-					g.Case(append([]string{"reset " + c11fmtCsv(l) + " " + c11fmtCsv(r)}, calls...))
+					g.Case(append([]string{"reset " + c11fmtCsv(l) + " " + c11fmtCsv(r)}, exCalls...))
 				}
 				idx++
 			}
@@ -371,7 +379,8 @@ func genC11Pairs(calls ...string) func(g *G) {
 }
 
 func genC12Lis(g *G) {
-	calls := []string{"lis nat", "lnds nat", "lis rev", "lnds rev", "lis half", "lnds half", "lis diff", "lnds diff", "lis rdiff2", "lnds rdiff2"}
+	// every comparator on every part: `revhalf` (ties AND a reversed order) used to run on the random cases only
+	calls := []string{"lis nat", "lnds nat", "lis rev", "lnds rev", "lis half", "lnds half", "lis diff", "lnds diff", "lis rdiff2", "lnds rdiff2", "lis revhalf", "lnds revhalf"}
 	g.Case(append([]string{"reset -"}, calls...))
 	// exhaustive: 4 symbols, length ≤ 7 (9 thorough), divided among the generator shards;
 	// under `half` 0~1 and 2~3 tie
@@ -382,7 +391,7 @@ func genC12Lis(g *G) {
 		}
 		g.Case(append([]string{"reset " + c11fmtCsv(w)}, calls...))
 	}
-	all := append(slices.Clone(calls), "lis revhalf", "lnds revhalf")
+	all := slices.Clone(calls)
 	// random: heavy ties
 	for c := 0; c < g.Scale(300, 5000); c++ {
 		n := 1 + g.Intn(g.Scale(80, 300))
@@ -434,6 +443,6 @@ func genC12Lis(g *G) {
 func init() {
 	mk := func(st *Stats) Runner { return &c11{st: st} }
 	register(&Stream{Name: "C11", Gen: genC11Pairs("edit"), New: mk})
-	register(&Stream{Name: "C12.lcs", Gen: genC11Pairs("lcs", "lcsf 2"), New: mk})
+	register(&Stream{Name: "C12.lcs", Gen: genC11Pairs("lcs", "lcsf 2", "lcsf 3"), New: mk})
 	register(&Stream{Name: "C12.lis", Gen: genC12Lis, New: mk})
 }
